@@ -2,6 +2,7 @@ package main
 
 import (
 	"fmt"
+	"go/token"
 	"strings"
 
 	"golang.org/x/tools/go/ssa"
@@ -241,4 +242,53 @@ func (p *Prog) derivedFromCall(v ssa.Value, callee string, depth int) bool {
 	}
 	walk(v, 0)
 	return found
+}
+
+func sameArith(a, b ssa.Value) bool {
+	if a == b {
+		return true
+	}
+	x, ok1 := a.(*ssa.BinOp)
+	y, ok2 := b.(*ssa.BinOp)
+	if ok1 && ok2 && x.Op == y.Op {
+		return sameArith(x.X, y.X) && sameArith(x.Y, y.Y)
+	}
+	ca, ok1 := a.(*ssa.Const)
+	cb, ok2 := b.(*ssa.Const)
+	if ok1 && ok2 && ca.Value != nil && cb.Value != nil {
+		return ca.Value.String() == cb.Value.String()
+	}
+	return false
+}
+
+func init() {
+	register(&Rule{
+		ID: "C13.R6", Props: []string{"C13"}, Min: 1,
+		Doc: "variadic tail agreement in the reflective call: the argument index from which arguments are converted to the variadic element type is the index of the variadic parameter itself — the bound in the guard `i >= k` and the parameter index in `In(k).Elem()` are the same quantity (both counted over all parameters, including an injected context), so the last fixed parameter of a context-taking variadic function keeps its own type",
+		Run: func(p *Prog, c *Ctx) {
+			fn := p.MustFn("(*vuego.Vue).callFunc")
+			n := 0
+			for _, site := range callsIn(fn) {
+				if calleeName(site.Common()) != "reflect.Type.Elem" {
+					continue
+				}
+				in := isCallNamed(site.Common().Value, "reflect.Type.In")
+				if in == nil {
+					continue
+				}
+				n++
+				k := in.Call.Args[0]
+				agree := false
+				for _, g := range guardsOf(site.Block()) {
+					if b, ok := g.If.Cond.(*ssa.BinOp); ok && g.Branch && (b.Op == token.GEQ || b.Op == token.GTR) {
+						if sameArith(b.Y, k) {
+							agree = true
+						}
+					}
+				}
+				c.check(agree, fmt.Sprintf("callFunc: variadic element type#%d", n), p.instrPos(site), "guard bound == variadic parameter index", "arguments start taking the variadic element type from an index that is not the variadic parameter's index: with an injected *VueContext the last fixed argument of a variadic function is converted to the element type (an int arrives as a string, or conversion fails)")
+			}
+			c.check(n > 0, "callFunc: handles variadic functions", p.pos(fn.Pos()), "element type taken from In(k).Elem()", "the reflective call no longer derives the variadic element type")
+		},
+	})
 }
